@@ -39,8 +39,23 @@ func ruleCheckValue(c *Ctx) {
 				}
 			}
 			c.Check(R, "code39.EncodeWithColor/reported-value", ctor.Pos(), okSum, "checksumValue(X)#0 with X the stored content", found)
-			for _, call := range callsTo(fn, c.P.Func("code39.getChecksum")) {
-				c.Check(R, "code39.EncodeWithColor/check-char-subject", call.Pos(), call.Common().Args[0] == X, "getChecksum(X)", "getChecksum("+n.Norm(call.Common().Args[0]).String()+")")
+			// the drawn check character: getChecksum searches the table for a value; that value, seen in
+			// this calling context, is checksumValue(X)#0 - whether getChecksum computes it from X itself
+			// or receives it
+			gcFn := c.P.Func("code39.getChecksum")
+			for _, site := range c.P.deepCallsTo(fn, gcFn) {
+				call := site.Ins.(*ssa.Call)
+				sv := code39SearchedValue(c, gcFn)
+				if sv == nil {
+					c.Undecided(R, "code39.EncodeWithColor/check-char-subject", call.Pos(), "getChecksum does not select a character by a value")
+					continue
+				}
+				n.NoInline["code39.checksumValue"] = true
+				saved := n.Ctx
+				n.Ctx = append(append([]ssa.CallInstruction{}, site.Path...), call)
+				got := n.Norm(sv).String()
+				n.Ctx = saved
+				c.Check(R, "code39.EncodeWithColor/check-char-subject", call.Pos(), got == "call:code39.checksumValue(X)#0", "the character of value checksumValue(X)#0", got)
 			}
 			// X is the prepared content: phi(prepare(content)#0 under fullASCII, content otherwise)
 			if phi, ok := X.(*ssa.Phi); ok {
@@ -91,17 +106,10 @@ func ruleCheckValue(c *Ctx) {
 		}
 	}
 	if fn := c.theFunc(R, "code39.getChecksum"); fn != nil {
-		calls := callsTo(fn, c.P.Func("code39.checksumValue"))
-		ok := len(calls) == 1 && calls[0].Common().Args[0] == ssa.Value(fn.Params[0])
-		c.Check(R, "code39.getChecksum/value-source", fn.Pos(), ok, "checksumValue(content) of its own argument", fmt.Sprint(len(calls)))
+		sumV := code39SearchedValue(c, fn)
+		c.Check(R, "code39.getChecksum/value-source", fn.Pos(), sumV != nil, "selects the character by a check value (judged in its calling context above)", fmt.Sprint(sumV != nil))
 		// the character returned is the one whose table value is that sum
-		if len(calls) == 1 {
-			var sumV ssa.Value
-			for _, r := range *calls[0].Referrers() {
-				if ex, isEx := r.(*ssa.Extract); isEx && ex.Index == 0 {
-					sumV = ex
-				}
-			}
+		{
 			good, how := false, "no table search keyed by the check value"
 			if sumV != nil {
 				n := NewNormer(c.P)
@@ -316,4 +324,42 @@ func ctorFields(n *Normer, fn *ssa.Function, depth int) map[string]string {
 	got = ctorFields(n, cal, depth+1)
 	n.Ctx = saved
 	return got
+}
+
+// code39SearchedValue: the value by which code39.getChecksum selects the check character: the
+// operand compared with a table entry's value in the search, or the index into an alphabet string.
+func code39SearchedValue(c *Ctx, fn *ssa.Function) ssa.Value {
+	if fn == nil {
+		return nil
+	}
+	n := NewNormer(c.P)
+	var out ssa.Value
+	eachInstr(fn, func(b *ssa.BasicBlock, ins ssa.Instruction) {
+		switch x := ins.(type) {
+		case *ssa.BinOp:
+			if x.Op != token.EQL {
+				return
+			}
+			for _, pair := range [][2]ssa.Value{{x.X, x.Y}, {x.Y, x.X}} {
+				if strings.HasSuffix(n.Norm(pair[0]).String(), ".value") && isIntType(pair[1].Type()) {
+					if _, isConst := pair[1].(*ssa.Const); !isConst {
+						out = pair[1]
+					}
+				}
+			}
+		case *ssa.Slice:
+			if k, isK := x.X.(*ssa.Const); isK && k.Value != nil && k.Value.Kind() == constant.String && x.Low != nil {
+				out = x.Low
+			}
+		case *ssa.Index:
+			if k, isK := x.X.(*ssa.Const); isK && k.Value != nil && k.Value.Kind() == constant.String {
+				out = x.Index
+			}
+		case *ssa.Lookup:
+			if k, isK := x.X.(*ssa.Const); isK && k.Value != nil && k.Value.Kind() == constant.String {
+				out = x.Index
+			}
+		}
+	})
+	return out
 }
